@@ -219,9 +219,10 @@ const (
 )
 
 const (
-	modePlain   = iota // `sched`: a private pool
-	modeWriters        // `writers`: caddy's writers pool through Logging.openWriter / closeLogs
-	modeHosts          // `hosts`: the reverse proxy's hosts pool through provisionUpstream / Cleanup
+	modePlain     = iota // `sched`: a private pool
+	modeWriters          // `writers`: caddy's writers pool through Logging.openWriter / closeLogs
+	modeHosts            // `hosts`: the reverse proxy's hosts pool through provisionUpstream / Cleanup
+	modeListeners        // `listeners`: listen_unix.go through NetworkAddress.Listen / Close, whole calls (listeners.go)
 )
 
 type controller struct {
